@@ -35,7 +35,7 @@ theorem good_init (cap : Cap) (L R : Bool) (simple : Option SpawnSpec) : Good ca
    fun t tk h => by simp [Pool.init] at h,
    ⟨fun g G h => by simp [Pool.init] at h, fun a A g h => by simp [Pool.init] at h⟩,
    fun _ v _ _ _ w hw => by simp [Pool.init] at hw, fun _ => rfl,
-   fun _ => rfl, fun _ A hA => by simp [Pool.init] at hA⟩,
+   fun _ => rfl, fun _ _ A hA => by simp [Pool.init] at hA⟩,
    ⟨fun t tk h _ => by simp [Pool.init] at h, fun m r h => by simp [Pool.init] at h,
     fun m r h => by simp [Pool.init] at h, fun m r h => by simp [Pool.init] at h⟩,
    ⟨fun t tk h => by simp [Pool.init] at h, fun m r h => by simp [Pool.init] at h,
@@ -49,10 +49,10 @@ theorem goodC_invariant : PoolInvariant GoodC noSetSize where
   op := by
     intro c p orders o ho hg
     have h1 := (Pool.tame_setOrders p orders).good hg
-    exact Pool.good_applyOp _ o (by simpa [noSetSize] using ho) (fun h => Bool.noConfusion h) h1
+    exact Pool.good_applyOp _ o (by simpa [noSetSize] using ho) (fun h _ => Bool.noConfusion h) h1
   run := by
     intro c p orders r hg
-    exact Pool.good_runRef _ r ((Pool.tame_setOrders p orders).good hg)
+    exact Pool.good_runRef _ r ((Pool.tame_setOrders p orders).good hg) (fun h => Bool.noConfusion h)
   drain := by
     intro c p hg
     exact (tame_of_eq p { p with emit := [] } rfl rfl).good hg
@@ -79,10 +79,10 @@ theorem baseC_invariant : PoolInvariant BaseC allOps where
     · cases o with
       | setSize v => exact good_setSize _ v h1
       | _ => simp [Op.isSetSize] at hs
-    · exact ⟨cap, Pool.good_applyOp _ o (by simpa using hs) (fun h => Bool.noConfusion h) h1⟩
+    · exact ⟨cap, Pool.good_applyOp _ o (by simpa using hs) (fun h _ => Bool.noConfusion h) h1⟩
   run := by
     intro c p orders r ⟨cap, hg⟩
-    exact ⟨cap, Pool.good_runRef _ r ((Pool.tame_setOrders p orders).good hg)⟩
+    exact ⟨cap, Pool.good_runRef _ r ((Pool.tame_setOrders p orders).good hg) (fun _ h => Bool.noConfusion h)⟩
   drain := by
     intro c p ⟨cap, hg⟩
     exact ⟨cap, (tame_of_eq p { p with emit := [] } rfl rfl).good hg⟩
@@ -99,10 +99,10 @@ theorem strictC_invariant : PoolInvariant StrictC noGac where
     · cases o with
       | setSize v => exact good_setSize _ v h1
       | _ => simp [Op.isSetSize] at hs
-    · exact ⟨cap, Pool.good_applyOp _ o (by simpa using hs) (fun _ => by simpa [noGac] using ho) h1⟩
+    · exact ⟨cap, Pool.good_applyOp _ o (by simpa using hs) (fun _ _ => by simpa [noGac] using ho) h1⟩
   run := by
     intro c p orders r ⟨cap, hg⟩
-    exact ⟨cap, Pool.good_runRef _ r ((Pool.tame_setOrders p orders).good hg)⟩
+    exact ⟨cap, Pool.good_runRef _ r ((Pool.tame_setOrders p orders).good hg) (fun _ h => Bool.noConfusion h)⟩
   drain := by
     intro c p ⟨cap, hg⟩
     exact ⟨cap, (tame_of_eq p { p with emit := [] } rfl rfl).good hg⟩
